@@ -41,8 +41,11 @@ type Finding struct {
 	Package    string `json:"package"`
 	Func       string `json:"func"`
 	Obligation string `json:"obligation"`
-	Region     string `json:"region,omitempty"`
-	What       string `json:"what"`
+	// Also lists further obligations that fail for the very same reason (the clauses of a contract are judged
+	// independently of each other, so one defect can break several of them).
+	Also   []string `json:"also,omitempty"`
+	Region string   `json:"region,omitempty"`
+	What   string   `json:"what"`
 }
 
 type FixedEntry struct {
@@ -423,8 +426,16 @@ func findingFor(ctx *Context, r *OblResult, prop string) *Finding {
 	}
 	for i := range ctx.findings.Findings {
 		f := &ctx.findings.Findings[i]
-		if f.Property == prop && f.Obligation == r.ob.Name && (f.Package == "" || f.Package == r.fr.fc.PkgPath) {
+		if f.Property != prop || (f.Package != "" && f.Package != r.fr.fc.PkgPath) {
+			continue
+		}
+		if f.Obligation == r.ob.Name {
 			return f
+		}
+		for _, o := range f.Also {
+			if o == r.ob.Name && f.Region == "" {
+				return f
+			}
 		}
 	}
 	return nil
